@@ -342,7 +342,7 @@ def _decomposed(g, shapes, comps):
     return out
 
 
-def _fea(rnd, is_default, glyphs, with_caret, sparse_kern=False):
+def _fea(rnd, is_default, glyphs, with_caret, sparse_kern=False, kern_const=(False, False, False)):
     def j(v, r=40):
         return v if is_default else v + rnd.randrange(-r, r + 1)
 
@@ -367,15 +367,16 @@ def _fea(rnd, is_default, glyphs, with_caret, sparse_kern=False):
             for a, b, v in (("A", "C", -70), ("B", "D", 55), ("A", "D", -33)):
                 if rnd.random() < 0.5:
                     lines.append("  pos %s %s %d;" % (a, b, nz(v + rnd.randrange(-20, 21))))
-        lines.append("  pos [A B] [C D] %d;" % nz(j(18)))
+        # (a class row may be the same in every master while other rows vary: kern_const)
+        lines.append("  pos [A B] [C D] %d;" % (18 if kern_const[0] else nz(j(18))))
         pairs += [("A", "C"), ("B", "D"), ("A", "D"), ("B", "C")]
         if has("E", "O"):
             # further class-based subtables whose first-glyph coverage overlaps the one above (hand-written kerning
             # with `subtable;` breaks: same left glyphs, other right classes); the first covering subtable wins
             lines.append("  subtable;")
-            lines.append("  pos [A B E] [O D] %d;" % nz(j(-27)))
+            lines.append("  pos [A B E] [O D] %d;" % (-27 if kern_const[1] else nz(j(-27))))
             lines.append("  subtable;")
-            lines.append("  pos [B E O] [A C] %d;" % nz(j(33)))
+            lines.append("  pos [B E O] [A C] %d;" % (33 if kern_const[2] else nz(j(33))))
             pairs += [("A", "O"), ("B", "O"), ("E", "O"), ("E", "D"), ("E", "A"), ("O", "C"), ("B", "A"), ("E", "C")]
     if has("O", "E"):
         lines.append("  pos O E <%d %d %d 0>;" % (nz(j(12, 10)), nz(j(9, 8)), nz(j(-25, 20))))
@@ -412,8 +413,11 @@ def build_master(rnd, kind, is_default, glyphs, opts, name):
     if not opts.get("alt"):
         order = [g for g in order if g != "A.alt"]
         sparse.discard("A.alt")
-    if kind == "ttf":
+    if kind == "ttf" and opts.get("umm", True):
         _use_my_metrics_advances(adv)
+    elif kind == "ttf":
+        # this master does not carry the USE_MY_METRICS flags (and its composites have advances of their own)
+        comps = {g: [(b, dx, dy, tr, False) for b, dx, dy, tr, u in cl] for g, cl in comps.items()}
     fb = FontBuilder(UPEM, isTTF=(kind == "ttf"))
     fb.setupGlyphOrder(order)
     fb.setupCharacterMap({cp: g for cp, g in CMAP.items() if g in order})
@@ -446,6 +450,21 @@ def build_master(rnd, kind, is_default, glyphs, opts, name):
             # lsb = xMin of the charstring
             b = cs[g].calcBounds(None)
             metrics[g] = (metrics[g][0], int(b[0]) if b else 0)
+        if opts.get("vertical"):
+            # vertical metrics: vhea/vmtx and a VORG whose default origin differs per master, with explicit records
+            # for a few glyphs only (the others sit at the master's own default)
+            dflt = 880 if is_default else 880 + rnd.randrange(-70, 71)
+            vorg, vmet = {}, {}
+            for g in order:
+                if g in ("A", "O", "acutecomb") and g not in sparse:
+                    vorg[g] = (860 if g != "O" else 905) if is_default else 870 + rnd.randrange(-60, 61)
+                b = cs[g].calcBounds(None)
+                ymax = int(b[3]) if b else 0
+                h = 1000 if is_default or g in MARKS else 1000 + rnd.randrange(-90, 91)
+                vmet[g] = (h, vorg.get(g, dflt) - ymax)
+            fb.setupVerticalHeader(ascent=500, descent=-500)
+            fb.setupVerticalMetrics(vmet)
+            fb.setupVerticalOrigins(vorg, dflt)
     fb.setupHorizontalMetrics(metrics)
 
     def mv(field):
@@ -465,7 +484,7 @@ def build_master(rnd, kind, is_default, glyphs, opts, name):
     fb.setupPost(**{f: mv(f) for f in MVAR_FIELDS["post"]})
     pairs = []
     if opts.get("layout", True) and not (sparse and (opts.get("sparse_no_layout") or len(order) < len([g for g in ORDER if opts.get("alt") or g != "A.alt"]))):
-        fea, pairs = _fea(rnd, is_default, set(order) - ({"space"}), opts.get("caret"), opts.get("sparse_kern"))
+        fea, pairs = _fea(rnd, is_default, set(order) - ({"space"}), opts.get("caret"), opts.get("sparse_kern"), opts.get("kern_const", (False, False, False)))
         addOpenTypeFeaturesFromString(fb.font, fea)
     buf = io.BytesIO()
     fb.font.save(buf)
@@ -489,7 +508,8 @@ def make(rnd, kind="ttf", naxes=None, maps=True, rules=False, sparse=True, grid=
             "sparse_adv_sentinel": rnd.random() < 0.5, "sparse_no_layout": rnd.random() < 0.5,
             "cff_subset_sparse": rnd.random() < 0.5, "mark_zero": rnd.random() < 0.7,
             "sparse_kern": rnd.random() < 0.7, "partial_locations": rnd.random() < 0.6,
-            "axis_sparse": rnd.random() < 0.35}
+            "axis_sparse": rnd.random() < 0.35, "vertical": kind == "cff" and rnd.random() < 0.45,
+            "kern_const": tuple(rnd.random() < 0.4 for _ in range(3))}
     ds = DesignSpaceDocument()
     for a in axes:
         ad = AxisDescriptor()
@@ -506,6 +526,15 @@ def make(rnd, kind="ttf", naxes=None, maps=True, rules=False, sparse=True, grid=
         cands = [i for i, l in enumerate(ulocs) if l != default and any(l[a["tag"]] not in (a["min"], a["max"], a["default"]) for a in axes)]
         if cands:
             sparse_idx.add(rnd.choice(cands))
+    # USE_MY_METRICS on composite components: set in every master, or missing from exactly one of them (often the
+    # first-listed source, which need not be the default master) - the builder must then clear the flag
+    umm_off = None
+    if kind == "ttf" and len(ulocs) > 1 and rnd.random() < 0.5:
+        cands = [i for i, l in enumerate(ulocs) if l != default]
+        umm_off = 0 if (ulocs[0] != default and rnd.random() < 0.6) else rnd.choice(cands)
+        # with the flag a renderer positions the composite by the component's side bearing, without it by its own:
+        # keep both at zero slack so that clearing the flag cannot move the outline
+        opts["lsb_is_xmin"] = True
     full = [g for g in ORDER if rules or g != "A.alt"]
     force_axis_sparse, axis_sparse, ends_only = axis_sparse, {}, None
     if (opts["axis_sparse"] if force_axis_sparse is None else force_axis_sparse) and sparse and naxes >= 2:
@@ -539,7 +568,7 @@ def make(rnd, kind="ttf", naxes=None, maps=True, rules=False, sparse=True, grid=
                     drop |= gs
             glyphs = [g for g in glyphs if g not in drop]
         name = "m%d" % i
-        data, info = build_master(rnd, kind, is_default, glyphs, opts, name)
+        data, info = build_master(rnd, kind, is_default, glyphs, dict(opts, umm=(i != umm_off)), name)
         design = {a["name"]: _fwd(a, ul[a["tag"]]) for a in axes}
         sd = SourceDescriptor()
         sd.name = name
@@ -599,4 +628,4 @@ def make(rnd, kind="ttf", naxes=None, maps=True, rules=False, sparse=True, grid=
             ds.addRule(rd)
     return {"ds": ds, "masters": masters, "axes": axes, "kind": kind, "opts": opts,
             "marks": list(MARKS), "bases": list(BASES), "twin_axes": twin_axes,
-            "axis_sparse": {t: sorted(gs) for t, gs in axis_sparse.items()}}
+            "axis_sparse": {t: sorted(gs) for t, gs in axis_sparse.items()}, "umm_off": umm_off}
